@@ -33,6 +33,7 @@ func freePort() string {
 func main() {
 	cycles := flag.Int("cycles", 2000, "start/stop cycles")
 	procs := flag.Int("procs", 0, "GOMAXPROCS (0 = default)")
+	watchdog := flag.Int("watchdog", 60, "seconds after which a blocked AwaitStop counts as a deadlock")
 	delayUs := flag.Int("delay-us", 0, "max random-ish delay between Run and RequestStop (microseconds, cycles through 0..delay)")
 	flag.Parse()
 	if *procs > 0 {
@@ -47,7 +48,14 @@ func main() {
 			time.Sleep(time.Duration(i%(*delayUs+1)) * time.Microsecond)
 		}
 		inst.RequestStop()
-		inst.AwaitStop()
+		done := make(chan struct{})
+		go func() { inst.AwaitStop(); close(done) }()
+		select {
+		case <-done:
+		case <-time.After(time.Duration(*watchdog) * time.Second):
+			fmt.Printf("DEADLOCK cycle=%d: AwaitStop did not return within %d s of RequestStop\n", i, *watchdog)
+			os.Exit(4)
+		}
 		for _, a := range []string{pa, ma} {
 			l, err := net.Listen("tcp", a)
 			if err != nil {
